@@ -185,6 +185,10 @@ class AirTouchSocket(Generic[comms.Hdr]):
                 if task is not current_task:
                     task.cancel()
 
+            # Messages that are still waiting for a connection must not be
+            # sent if the socket is opened again later.
+            self._message_queue.clear()
+
     async def send(self, message: comms.Message, retry_policy: RetryPolicy) -> None:
         """Send a message to the AirTouch.
 
